@@ -259,6 +259,11 @@ type VC struct {
 	needDigits  bool
 	needBeval   bool
 	needToHash  bool
+	inCommute   bool            // inside the hypothetical iterations of a commute obligation
+	pureDecl    map[string]bool
+	commuteKeys map[string][]Val // "@loopN." -> the two keys of that loop's commute obligations (key1/key2 in a finding's class)
+	commuteKeyT map[string]types.Type
+	forcedKey   map[string]Term // map iterator -> key the next range step must yield (commute.go)
 	digitTheory bool
 	needBytes   bool
 	frameOn     bool
